@@ -80,8 +80,12 @@ def seeds():
     n = caught_first = 0
     for d in sorted(glob.glob('/verif/seeded/C*-*')):
         sid = os.path.basename(d)
+        if not (os.path.exists(d + '/meta.json') and os.path.exists(d + '/result.json')):
+            continue
         m = json.load(open(d + '/meta.json'))
         r = json.load(open(d + '/result.json'))
+        if not r.get('detect') and not r.get('obsolete'):
+            continue  # delivered and confirmed, detection not run yet
         files = ', '.join(os.path.basename(f) for f in m.get('files', []))
         summ = str(m.get('summary', '')).replace('|', '/').replace('\n', ' ')
         summ = summ[:200] + ('...' if len(summ) > 200 else '')
